@@ -195,6 +195,11 @@ func (srv *Srv) walk(req *SrvReq) {
 	}
 
 	if tc.Fid != tc.Newfid {
+		if tc.Newfid == NOFID {
+			req.RespondError(Eunknownfid)
+			return
+		}
+
 		req.Newfid = conn.FidNew(tc.Newfid)
 		if req.Newfid == nil {
 			req.RespondError(Einuse)
